@@ -206,13 +206,15 @@ let () =
         let nch = next_int () in
         let lens = List.init nch (fun _ -> next_int ()) in
         let chunks = List.map (fun l -> List.init l (fun _ -> n_of_int (next_int ()))) lens in
-        let endflag = next_bool () in
+        let endmode = next_int () in
+        let endflag = endmode land 1 <> 0 in
+        let keep = endmode land 2 <> 0 in
         (match cstart cfg d !cur with
          | None -> print_endline "UNDEF"
          | Some ((r, q), x) ->
              line cfg r (int_of_nat q) 0 x;
              let st = ref (Some (q, { vals = x.vals; hooks = [] })) in
-             let stop = ref (match r with ROk -> false | _ -> true) in
+             let stop = ref (match r with ROk -> false | _ -> not keep) in
              List.iter (fun chunk ->
                (* feed the chunk; after a yield re-invoke with the rest *)
                let rest = ref chunk in
@@ -232,7 +234,7 @@ let () =
                              rest := List.filteri (fun i _ -> i >= c) !rest;
                              if !rest = [] && not d.d_end_check then continue := false
                          | ROk -> continue := false
-                         | _ -> stop := true))
+                         | _ -> if keep then continue := false else stop := true))
                done) chunks;
              if endflag && not !stop then
                (match !st with
@@ -240,6 +242,7 @@ let () =
                 | Some (q, x) ->
                     (match cend cfg d q x with
                      | None -> print_endline "UNDEF"
-                     | Some ret -> line cfg ret.r_res (int_of_nat ret.r_q) 0 ret.r_x)))
+                     | Some ret -> line cfg ret.r_res (int_of_nat ret.r_q) 0 ret.r_x)));
+        print_endline "--"
     | s -> failwith ("unknown command " ^ s)
   done
